@@ -54,3 +54,48 @@ From HT Require Import World.Observe Proofs.InitProofs.
 Theorem C17_start : forall L ubal fbal tdec, RegOK (init_world L ubal fbal tdec).
 Proof. exact init_world_RegOK. Qed.
 Print Assumptions C17_start.
+
+From HT Require Import Proofs.DecimalsHistProofs.
+Theorem C17_decimals_step : forall w o w',
+  WF w -> RegOK w -> DecOK w -> submitter o <> w_fac w -> exec w o = Ok w' -> DecOK w'.
+Proof. exact exec_preserves_DecOK. Qed.
+Print Assumptions C17_decimals_step.
+
+Theorem C17_decimals_history : forall ops w,
+  WF w -> RegOK w -> DecOK w -> no_factory_submitter w ops -> DecOK (run w ops).
+Proof. exact run_preserves_DecOK. Qed.
+Print Assumptions C17_decimals_history.
+
+Theorem C17_decimals_start : forall L ubal fbal tdec, DecOK (init_world L ubal fbal tdec).
+Proof. exact init_world_DecOK. Qed.
+Print Assumptions C17_decimals_start.
+
+Theorem C17_registered_decimals_reach_every_pair : forall L ubal fbal tdec ops r dn,
+  let w0 := init_world L ubal fbal tdec in
+  no_factory_submitter w0 ops ->
+  let w := run w0 ops in
+  In r (w_reg w) ->
+  (f_a0 r = ANative dn -> w_natives w dn = Some (f_d0 r)) /\
+  (f_a1 r = ANative dn -> w_natives w dn = Some (f_d1 r)) /\
+  exists ps, w_pairs w (f_pair r) = Some ps /\ p_d0 ps = f_d0 r /\ p_d1 ps = f_d1 r.
+Proof. exact registered_decimals_reach_every_pair. Qed.
+Print Assumptions C17_registered_decimals_reach_every_pair.
+
+Theorem C17_decimals_example :
+  dh_all_ok dh_w0 (dh_setup ++ dh_later) = true /\
+  no_factory_submitter dh_w0 (dh_setup ++ dh_later) /\
+  DecOK (run dh_w0 (dh_setup ++ dh_later)) /\
+  (* before the re-registrations: 6 everywhere *)
+  map (dh_pair_view (run dh_w0 dh_setup)) [4; 6; 8] =
+    [Some (ANative 0, AToken 2, 6, 6); Some (AToken 3, ANative 0, 6, 6); Some (ANative 0, ANative 1, 6, 6)] /\
+  map (dh_rec_view (run dh_w0 dh_setup)) [4; 6; 8] =
+    [Some (ANative 0, AToken 2, 6, 6); Some (AToken 3, ANative 0, 6, 6); Some (ANative 0, ANative 1, 6, 6)] /\
+  (* after them: 12 in the slot of denom 0 (first, second, first), the other slots unchanged *)
+  map (dh_pair_view (run dh_w0 (dh_setup ++ dh_later))) [4; 6; 8] =
+    [Some (ANative 0, AToken 2, 12, 6); Some (AToken 3, ANative 0, 6, 12); Some (ANative 0, ANative 1, 12, 6)] /\
+  map (dh_rec_view (run dh_w0 (dh_setup ++ dh_later))) [4; 6; 8] =
+    [Some (ANative 0, AToken 2, 12, 6); Some (AToken 3, ANative 0, 6, 12); Some (ANative 0, ANative 1, 12, 6)] /\
+  w_natives (run dh_w0 (dh_setup ++ dh_later)) 0 = Some 12 /\
+  w_natives (run dh_w0 (dh_setup ++ dh_later)) 1 = Some 6.
+Proof. exact decok_example. Qed.
+Print Assumptions C17_decimals_example.
